@@ -18,7 +18,7 @@
      mid, irt        "none" | "plain" | "folded" (value on a continuation line)
      body  [s, pc, pe, hc, he, pf, x]   structure, (x: further plain-text body candidates, see PlainCands) charset/CTE of the plain and of the HTML part,
                      pf: the plain text contains a line starting with "From "
-     att1, att2  [p, fn, ns, nx, mt, pl, cte, disp, cid, desc, xid, loc]  present?, file-name FORM (none / ascii / RFC 2231 /
+     att1, att2, att3  [p, fn, ns, nx, mt, pl, cte, disp, cid, desc, xid, loc]  present?, file-name FORM (none / ascii / RFC 2231 /
                      RFC 2047), name SHAPE ns (plain, with "/", with "\", drive prefix, leading dot,
                      "..", surrounding blanks, specials ; " %), name EXTENSION nx (the payload's own,
                      none, misleading), declared MIME type mt (official / alias / cross / octet-stream / plausible /
@@ -115,6 +115,7 @@ HasHtml(s)  == s \in {"html", "alt", "related", "altrel"}
 HasInline(s) == s \in {"related", "altrel"}
 
 Atts(m) == (IF m.att1.p THEN <<m.att1>> ELSE <<>>) \o (IF m.att2.p THEN <<m.att2>> ELSE <<>>)
+           \o (IF m.att3.p THEN <<m.att3>> ELSE <<>>)
 
 \* payloads whose extractor is the plain-text one (routing by an invented ".txt" name is harmless)
 PlainTextRouted(pl) == pl \in {"txt", "csv"}
@@ -213,6 +214,7 @@ Expected(m) ==
 
 (* ---------------- acceptance = Expected modulo the DON'T-CAREs ---------------- *)
 NotInline(x) == x.bytes[1] # "inline"
+NotAbsent(t) == t # Absent
 
 \* DC4: on the mbox path the escaped spelling of the message's own plain body is the same text
 Unesc(path, m, t) == IF path = "mbox" /\ m.body.pf /\ t = <<"plainesc", m.body.pc, 1>>
@@ -267,6 +269,11 @@ Accept(path, m, o) ==
         /\ IF PlainCands(m) # <<>> THEN o.full = o.plain ELSE o.full = e.full
         /\ (~HasInline(m.body.s) => Len(oa) = Len(o.atts))      \* "inline" only where there is one
         /\ Len(oa) = Len(e.atts)
+        \* ONE call of iterate_supported_attachments() on the whole message yields, in order and without
+        \* gaps, the extractions of exactly the attachments that extract on their own (o.suppall: the supp
+        \* tokens whose result lists the call's result list is the concatenation of) -- an unsupported
+        \* attachment in front of a supported one changes nothing
+        /\ o.suppall = (IF o.atts = <<>> THEN <<>> ELSE SelectSeq([ k \in DOMAIN o.atts |-> o.atts[k].supp ], NotAbsent))
         /\ \A j \in DOMAIN e.atts : AcceptAtt(path, Atts(m)[j], e.atts[j], oa[j])
 
 \* a case whose as-built observation differs from the reference one (domain of an open finding)
